@@ -11,7 +11,7 @@ use serde_json::json;
 
 use crate::{hist::ShardArgs, hs::TW};
 
-pub const POOL: [&str; 9] = [
+pub const POOL: [&str; 10] = [
     r"^a (\d+)$",
     r"^a (.*)$",
     r"^(a|b) (\d+)?$",
@@ -21,9 +21,13 @@ pub const POOL: [&str; 9] = [
     r"^a \d+$",
     r"b",
     r"^$",
+    r"(\d+) (é|apples?)",
 ];
-pub const TEXTS: [&str; 11] =
-    ["a 1", "a x", "b 2", "b ", "foo is 42", "xyz", "xz", "éßü", "", "zzz", "a 12"];
+pub const TEXTS: [&str; 14] = [
+    "a 1", "a x", "b 2", "b ", "foo is 42", "xyz", "xz", "éßü", "", "zzz", "a 12",
+    // unanchored matches that start at an offset > 0 (after ASCII and after multi-byte text)
+    "I have 12 apples", "ßß 7 é", "a 3 apple pie",
+];
 
 thread_local! {
     static CALLED: Cell<usize> = const { Cell::new(usize::MAX) };
@@ -40,10 +44,10 @@ macro_rules! fns {
     ($($n:literal),*) => { [$(marker::<$n> as cucumber::Step<TW>),*] };
 }
 
-pub fn step_fns() -> [cucumber::Step<TW>; 40] {
+pub fn step_fns() -> [cucumber::Step<TW>; 48] {
     fns!(
         0, 1, 2, 3, 4, 5, 6, 7, 8, 9, 10, 11, 12, 13, 14, 15, 16, 17, 18, 19, 20, 21, 22, 23, 24, 25,
-        26, 27, 28, 29, 30, 31, 32, 33, 34, 35, 36, 37, 38, 39
+        26, 27, 28, 29, 30, 31, 32, 33, 34, 35, 36, 37, 38, 39, 40, 41, 42, 43, 44, 45, 46, 47
     )
 }
 
@@ -60,11 +64,11 @@ pub struct Def {
 impl Def {
     /// Distinct `fn` item per definition.
     pub fn fn_index(self) -> usize {
-        // candidates: kw in {0,1}, re in 0..9, loc in {0,1} -> 36; loc 2 only with kw 0, re 0..4
+        // candidates: kw in {0,1}, re in 0..10, loc in {0,1} -> 40; loc 2 only with kw 0, re 0..4
         if self.loc == 2 {
-            36 + self.re
+            40 + self.re
         } else {
-            (self.kw as usize) * 18 + self.re * 2 + self.loc as usize
+            (self.kw as usize) * 20 + self.re * 2 + self.loc as usize
         }
     }
     pub fn location(self) -> Option<Location> {
@@ -126,7 +130,7 @@ fn permutations(n: usize) -> Vec<Vec<usize>> {
     out
 }
 
-fn build(defs: &[Def], fns: &[cucumber::Step<TW>; 40], res: &[Regex]) -> Collection<TW> {
+fn build(defs: &[Def], fns: &[cucumber::Step<TW>; 48], res: &[Regex]) -> Collection<TW> {
     let mut c = Collection::new();
     for d in defs {
         let (re, f) = (res[d.re].clone(), fns[d.fn_index()]);
@@ -164,7 +168,7 @@ fn ref_matches(re: &Regex, text: &str) -> Vec<(Option<String>, String)> {
 /// permutation, step type and text. Returns (evaluations, ambiguous cases, violation).
 pub fn check_set(
     defs: &[Def],
-    fns: &[cucumber::Step<TW>; 40],
+    fns: &[cucumber::Step<TW>; 48],
     res: &[Regex],
     types: &[u8],
 ) -> (usize, usize, Option<String>) {
@@ -304,7 +308,7 @@ pub fn run(a: &ShardArgs) -> serde_json::Value {
         "property": "C17", "tier": a.tier,
         "total_configs": sets.len(), "configs_done": done, "configs_skipped_budget": skipped,
         "evaluations": evaluations, "distinct_nontrivial": ambiguous,
-        "rule": format!("definition sets of size <= {} from {} (keyword, regex, location) candidates (9 regexes: nested, optional, named, alternation, multi-byte), every registration order, every permutation of the candidate iteration order (hook H2), 3 step types x {} texts; non-trivial = lookups that are ambiguous", if a.thorough {4} else {3}, cands.len(), TEXTS.len()),
+        "rule": format!("definition sets of size <= {} from {} (keyword, regex, location) candidates (10 regexes: nested, optional, named, alternation, multi-byte, unanchored with a group), every registration order, every permutation of the candidate iteration order (hook H2), 3 step types x {} texts; non-trivial = lookups that are ambiguous", if a.thorough {4} else {3}, cands.len(), TEXTS.len()),
         "exhaustive": skipped == 0,
         "violations": violations, "samples": samples,
     })
